@@ -85,9 +85,19 @@ def wrap_rejecting_guard(ctx, F, hty):
     bb, fp = fps[0]
     facts = A.g.facts_at(bb)
     hs = F.size_of(hty)
+    meta = G.strip(fp[2]) if fp[0] == "fatptr" else None
+    if meta is not None and meta[0] == "saturating" and meta[1] == "Sub":
+        return (True, "payload_len saturates (the metadata is %s): an undersized declaration gives 0, never a wrapped length" % G.show(meta)[:80])
     for f in facts:
         if f[0] != "cmp":
             continue
+        # `size_of::<H>().checked_add(payload_len)` is Some: header + payload_len does not overflow usize, so payload_len is
+        # below 2^64 - size_of::<H>() - every wrapped value of `size - size_of::<H>()` (>= 2^64 - size_of::<H>()) is rejected
+        if f[1] == "Eq" and f[3] == ("c", 1) and f[2][0] == "discr" and f[2][1][0] == "checked" and f[2][1][1] == "Add":
+            xs = [G.strip(x) for x in f[2][1][2]]
+            if ("c", hs) in xs and meta is not None and any(x == meta for x in xs):
+                return (True, "guard `%s.checked_add(payload_len)` is Some: a wrapped payload_len (>= 2^64-%d) overflows the checked "
+                              "addition and is rejected (%s)" % (hs, hs, A.site(bb)))
         op, a, b = f[1], G.strip(f[2]), G.strip(f[3])
         if op in ("Ge", "Gt"):
             op, a, b = G.SWAP[op], b, a
